@@ -839,7 +839,11 @@ func c07Mask(p *core.Program, r *core.Report, reg *registryResult) {
 							if isCallTo(info, call, core.ModPath+"/util/paramtext", "NewParamKVSeperate") && len(call.Args) == 3 {
 								if id, ok := as.Lhs[i].(*ast.Ident); ok {
 									sep, _ := mctx.constStr(call.Args[1])
-									out = append(out, paths.Event{Kind: "NEWKV", Arg: id.Name + "=" + sep, Pos: as.Pos()})
+									src := "other"
+									if sx, ok := ast.Unparen(call.Args[0]).(*ast.SelectorExpr); ok && sx.Sel.Name == "Dbc" {
+										src = "Dbc"
+									}
+									out = append(out, paths.Event{Kind: "NEWKV", Arg: id.Name + "=" + sep, Pos: as.Pos(), Node: ast.NewIdent(src)})
 								}
 								continue
 							}
@@ -878,19 +882,29 @@ func c07Mask(p *core.Program, r *core.Report, reg *registryResult) {
 						fmt.Fprintln(os.Stderr, "MASKPATH", c, ver, pa.String())
 					}
 					last := map[string]string{}
+					builtAt := map[string]int{} // parser local -> number of Dbc rewrites seen when it was built from Dbc
+					rewrites := 0
 					got := map[string]bool{}
 					for _, e := range pa {
 						switch e.Kind {
 						case "NEWKV":
 							if k := strings.Index(e.Arg, "="); k > 0 {
 								last[e.Arg[:k]] = e.Arg[k+1:]
+								builtAt[e.Arg[:k]] = rewrites
 							}
 						case "MASKUSE":
 							if sep, ok := last[e.Arg]; ok {
+								if builtAt[e.Arg] != rewrites {
+									// the parser was built from the Dbc of before an earlier masking pass: assigning
+									// its text back discards that pass
+									got = map[string]bool{}
+								}
 								got[sep] = true
 							}
+							rewrites++
 						case "MASK":
 							got[e.Arg] = true
+							rewrites++
 						}
 					}
 					var miss []string
